@@ -1059,6 +1059,13 @@ def make_selectors(g, rnd, slots_first=False):
             s2[ct] = 3
         elif x < 0.70:
             s2[ct] = 4
+    # a named rule derives from its body type (struct R1 : one< 'a' > {}): never list the two in different collections of one
+    # selector - a selector implementation that matched derived rules would then not compile (static_assert "multiple matches")
+    # instead of producing a wrong tree that can be reported
+    for i, r in enumerate(g.rules):
+        body = ("R%d" % g.inherit[i]) if i in getattr(g, "inherit", {}) else gen.ctype(r)
+        if ("R%d" % i) in s2 and body in s2 and s2[body] != s2["R%d" % i]:
+            s2[body] = s2["R%d" % i]
     sels.append(s2)
     g.selectors = sels
 
@@ -1084,6 +1091,25 @@ def abort_shapes(rnd):
                 g.note = "abort:%s:w%d:k%d" % (co, wi, kind)
                 make_selectors(g, rnd)
                 out.append(g)
+    return out
+
+
+def derived_rule_grammars(rnd):
+    """C12: `struct X : Y {}` - a rule type derived from another named rule is a different rule: a selector that lists Y says
+    nothing about X (and vice versa); each with all four transformer kinds."""
+    N = gen.N
+    out = []
+    for variant in range(4):
+        for mode in (1, 2, 3, 4):
+            r1 = [N("plus", [N("one", s="a")]), N("seq", [N("one", s="a"), N("opt", [N("one", s="b")])]),
+                  N("sor", [N("string", s="ab"), N("one", s="a")]), N("seq", [N("one", s="a"), N("star", [gen.ref(3)])])][variant]
+            r3 = N("one", s="b")
+            top = N("star", [N("sor", [N("seq", [gen.ref(1), N("one", s="x")]), gen.ref(2), gen.ref(1), N("any")])])
+            g = gen.Grammar([top, r1, gen.N.from_json(r1.to_json()), r3], alphabet="abx")
+            g.inherit = {2: 1}
+            g.selectors = [{"R1": mode, "R3": 1}, {"R2": mode, "R0": 1}]
+            g.note = "derived:%d:%d" % (variant, mode)
+            out.append(g)
     return out
 
 
@@ -1138,7 +1164,7 @@ def plan_c12(tier, seed, workdir, case):
         g.throw = True
         make_selectors(g, rnd)
         gs.append(g)
-    chains = chain_grammars()
+    chains = chain_grammars() + derived_rule_grammars(rnd)
     # (3) slot shapes: raising / throwing / consume-then-fail leaves under every combinator
     shapes = in_contexts(conv_shapes(bounds=(0, 1, 2)) + try_shapes(), contexts=("bare", "seq"))
     core = [gen.N(o, [gen.N("slot", k=0), gen.N("slot", k=1)]) for o in ("seq", "sor")] + \
@@ -1166,7 +1192,8 @@ spec("C12", plan=plan_c12,
           "store_content / remove_content / fold_one / discard_empty) on (1) random grammars with 2..5 recursive named rules over core "
           "and convenience operators, (2) grammars whose try_catch_*_return_false rules absorb must failures and exceptions thrown by "
           "actions and then continue, (3) chains of 6..11 unselected wrapper rules above a selected rule under backtracking, "
-          "look-ahead and repetition (the leaf optimisation looks 8 levels deep), (4) every combinator over raising / throwing / "
+          "look-ahead and repetition (the leaf optimisation looks 8 levels deep), rule types derived from another named rule (struct X : Y {}) "
+          "with only one of the two selected, (4) every combinator over raising / throwing / "
           "consume-then-fail slots, bare, inside seq and as a first alternative that fails itself or succeeds before a later rule fails, and as the body of star (one selector "
           "selects only leaves: all combinators are then candidates for the leaf optimisation), (5) rules whose own action throws at "
           "several depths below a try_catch that absorbs the exception before another alternative matches; all inputs to length 5/6 plus rapidcheck inputs and scripts.  Oracle: a tree is returned iff the "
